@@ -440,7 +440,11 @@ theorem fileExtension_some {name ext : Str} (h : fileExtension name = some ext) 
 /-! ### `deriveEntity` -/
 
 theorem isYamlExt_iff (e : Str) : isYamlExt e = true ↔ e = "yml".toList ∨ e = "yaml".toList := by
-  simp [isYamlExt, Extracted.yamlExts, eq_comm]
+  unfold isYamlExt Extracted.yamlExts
+  simp only [List.any_cons, List.any_nil, Bool.or_false, Bool.or_eq_true, beq_iff_eq]
+  constructor
+  · rintro (h | h) <;> simp [← h]
+  · rintro (h | h) <;> simp [h]
 
 /-- The path segments that name an entity: the `init` rule drops the file name. -/
 def entitySegs (dirs : List Str) (stem : Str) : List Str :=
@@ -509,45 +513,30 @@ theorem deriveEntity_yaml {isNode compose : Bool} {e : DirEntry} {dirs : List St
       else
         (joinWith ['.'] (entitySegs dirs (fileStem fname)),
           { path := e.rel, loc := entityLoc dirs (fileStem fname) })) := by
-  have key : ∀ (segs loc : List Str), (∀ s ∈ segs, ∀ c ∈ s, c ≠ '/') →
-      (let cls := joinWith ['/'] segs
-       let q : Str × List Str :=
-         if isNode && (cls.head? = some '_' || !compose) then
-           ((splitOn '/' cls).getLast?.getD [], ([] : List Str))
-         else (cls, loc)
-       (q.1.map (fun c => if c = '/' then '.' else c), q.2)) =
-      (if isNode && (segs.head?.bind List.head? = some '_' || !compose) then
-        (segs.getLast?.getD [], ([] : List Str))
-       else (joinWith ['.'] segs, loc)) := by
-    intro segs loc hs
-    have hcond : (decide ((joinWith ['/'] segs).head? = some '_')) =
-        decide (segs.head?.bind List.head? = some '_') := by
-      simp only [joinWith_head_underscore]
-    simp only [hcond]
-    split
-    · simp only [splitOn_joinWith_getLast hs]
-      congr 1
-      cases hl : segs.getLast? with
-      | none => rfl
-      | some l =>
-        have hmem : l ∈ segs := List.mem_of_getLast? hl
-        have := joinWith_slash_to_dot (segs := [l]) (by
-          intro s hs'; simp at hs'; subst hs'; exact hs _ hmem)
-        simpa [joinWith] using this
-    · simp only [joinWith_slash_to_dot hs]
+  have hfst : (if fileStem fname = Extracted.initName.toList then (dirs, dropLast dirs)
+      else (dirs ++ [fileStem fname], dirs)).fst = entitySegs dirs (fileStem fname) := by
+    unfold entitySegs; split <;> rfl
+  have hsnd : (if fileStem fname = Extracted.initName.toList then (dirs, dropLast dirs)
+      else (dirs ++ [fileStem fname], dirs)).snd = entityLoc dirs (fileStem fname) := by
+    unfold entityLoc; split <;> rfl
+  have hcond : (decide ((joinWith ['/'] (entitySegs dirs (fileStem fname))).head? = some '_')) =
+      decide ((entitySegs dirs (fileStem fname)).head?.bind List.head? = some '_') := by
+    simp only [joinWith_head_underscore]
   unfold deriveEntity
   simp only [hrel, List.reverse_append, List.reverse_cons, List.reverse_nil, List.nil_append,
     List.singleton_append, hext, hy, hf, Bool.and_self, Bool.not_true, Bool.false_eq_true, if_false,
-    List.reverse_reverse]
-  unfold entitySegs entityLoc at *
-  by_cases hinit : fileStem fname = Extracted.initName.toList
-  · simp only [hinit, if_true] at hslash ⊢
-    have := key dirs (dropLast dirs) hslash
-    simp only at this
-    split <;> simp_all
-  · simp only [hinit, if_false] at hslash ⊢
-    have := key (dirs ++ [fileStem fname]) dirs hslash
-    simp only at this
-    split <;> simp_all
+    List.reverse_reverse, hfst, hsnd, hcond]
+  generalize entitySegs dirs (fileStem fname) = segs at hslash ⊢
+  by_cases hc : (isNode && (decide (segs.head?.bind List.head? = some '_') || !compose)) = true
+  · simp only [hc, if_true, splitOn_joinWith_getLast hslash]
+    congr 2
+    cases hl : segs.getLast? with
+    | none => rfl
+    | some l =>
+      have hmem : l ∈ segs := List.mem_of_getLast? hl
+      have := joinWith_slash_to_dot (segs := [l]) (by
+        intro s hs'; simp at hs'; subst hs'; exact hslash _ hmem)
+      simpa [joinWith] using this
+  · simp only [hc, if_false, joinWith_slash_to_dot hslash]
 
 end Reclass
